@@ -26,6 +26,7 @@ import (
 type SecurityAdapters struct {
 	securityChain *ports.SecurityChain
 	logger        logger.StyledLogger
+	maxBodySize   int64 // configured request body limit; 0 means unlimited
 }
 
 // CreateChainMiddleware creates middleware that applies the full security chain with enhanced logging
@@ -63,6 +64,11 @@ func (s *SecurityAdapters) CreateChainMiddleware() func(http.Handler) http.Handl
 					}
 					return
 				}
+			}
+			// the size validator only sees the declared Content-Length: cap the body itself as well, so a
+			// chunked (undeclared-length) body cannot exceed the configured limit
+			if s.maxBodySize > 0 && r.Body != nil {
+				r.Body = http.MaxBytesReader(w, r.Body, s.maxBodySize)
 			}
 			withAccessLogging.ServeHTTP(w, r)
 		})
@@ -139,6 +145,7 @@ func NewApplication(
 	securityAdapters := &SecurityAdapters{
 		securityChain: securityChain,
 		logger:        logger,
+		maxBodySize:   cfg.Server.RequestLimits.MaxBodySize,
 	}
 
 	// Create route registry
